@@ -227,6 +227,7 @@ func runC04(planAny any, cfg simrt.Config) *simkit.Outcome {
 		valid  bool
 		got    bool
 		alloc  uint64
+		resp   string
 	}
 	var recs []*rec
 	var n *node
@@ -253,6 +254,7 @@ func runC04(planAny any, cfg simrt.Config) *simkit.Outcome {
 				}
 				st, rb := n.post(path, map[string]string{"x-arc-database": rq.B.DB}, body)
 				rc.status, rc.got, rc.alloc = st, true, n.lastAlloc
+				rc.resp = rb
 				if len(rb) > 160 {
 					rb = rb[:160]
 				}
@@ -278,6 +280,20 @@ func runC04(planAny any, cfg simrt.Config) *simkit.Outcome {
 	for i, rc := range recs {
 		if !rc.got || rc.status == 0 {
 			out.Violate("C04.no-response", "request %d got no HTTP response", i)
+		}
+		unusual := false
+		for _, c := range rc.rq.B.Cols {
+			for _, w := range weirdNames {
+				if c.Name == w {
+					unusual = true // may be rejected, with whatever status
+				}
+			}
+		}
+		if rc.valid && !unusual && rc.status >= 500 {
+			// no storage or disk fault is ever injected in C04 runs: a 5xx for a
+			// well-formed request is a handler panic caught by the recover
+			// middleware (or an internal error) caused by the requests before it
+			out.Violate("C04.valid-request-answered-5xx", "request %d (%s, mut=%s, weird=%q) is well-formed but was answered %d %.160s", i, rc.rq.B.Kind, rc.rq.Mut.Kind, rc.rq.Weird, rc.status, rc.resp)
 		}
 		if rc.alloc >= allocBlowup {
 			body, _ := rc.rq.body()
